@@ -193,8 +193,12 @@ func genPlan(r *rand.Rand, kind string) (pl *plan, cancelAt string, shape string
 		ok = "error"
 	}
 	switch r.Intn(12) {
-	case 0, 1, 2:
+	case 0, 1:
 		return newPlan(kind, replySpec{ok, "now"}), "", "reply"
+	case 2:
+		pl := newPlan(kind, replySpec{ok, "now"})
+		pl.fast = true
+		return pl, "", "reply-from-fast-peer"
 	case 3:
 		return newPlan(kind, replySpec{ok, "now"}, replySpec{ok, "now"}), "", "reply+duplicate"
 	case 4:
